@@ -2,6 +2,7 @@ package pac
 
 import (
 	"bytes"
+	"errors"
 
 	"github.com/jcmturner/rpc/v2/mstypes"
 )
@@ -45,8 +46,11 @@ func (k *UPNDNSInfo) Unmarshal(b []byte) (err error) {
 	if err != nil {
 		return
 	}
-	ub := mstypes.NewReader(bytes.NewReader(b[k.UPNOffset : k.UPNOffset+k.UPNLength]))
-	db := mstypes.NewReader(bytes.NewReader(b[k.DNSDomainNameOffset : k.DNSDomainNameOffset+k.DNSDomainNameLength]))
+	if int(k.UPNOffset)+int(k.UPNLength) > len(b) || int(k.DNSDomainNameOffset)+int(k.DNSDomainNameLength) > len(b) {
+		return errors.New("UPN_DNS_INFO offsets and lengths are outside the buffer")
+	}
+	ub := mstypes.NewReader(bytes.NewReader(b[int(k.UPNOffset) : int(k.UPNOffset)+int(k.UPNLength)]))
+	db := mstypes.NewReader(bytes.NewReader(b[int(k.DNSDomainNameOffset) : int(k.DNSDomainNameOffset)+int(k.DNSDomainNameLength)]))
 
 	u := make([]rune, k.UPNLength/2, k.UPNLength/2)
 	for i := 0; i < len(u); i++ {
